@@ -244,6 +244,8 @@ class Checker:
         self.reported_dead_owner: set = set()
         self.claim_log: list = []
         self.preamble = None
+        self.protected: dict = {}
+        self.doomed_ever: set = set()
 
     # -- helpers
     def alive(self, label) -> bool:
@@ -315,6 +317,9 @@ class Checker:
                 if not pre["kill_me"]:
                     self.must_die.setdefault(victim, {"why": f"{pre['name']} claimed by the file preamble",
                                                       "vt": rec["vt"], "cb_block": set(self.cb_running)})
+                else:
+                    # kill_me=True from a caller pyscript did not start does nothing: the owner lives on
+                    self.protected[victim] = {"vt": rec["vt"], "name": pre["name"]}
             return
         if args[0] != "p":
             return
@@ -379,6 +384,7 @@ class Checker:
 
     # -- invariants at quiescent points
     def on_quiescent(self, _loop) -> None:
+        self.doomed_ever.update(k for k in self.must_die if not isinstance(k, tuple))
         self.release_dead()
         for label, info in list(self.must_die.items()):
             if not self.alive(label):
@@ -482,6 +488,13 @@ def run(scn: dict) -> dict:
         await w.drain()
         w.loop.on_quiescent = None
         chk.on_quiescent(w.loop)
+        chk.doomed_ever.update(chk.must_die)
+        for label, info in sorted(chk.protected.items()):
+            rec = chk.inst.get(label)
+            if rec is not None and rec["task"].cancelled() and label not in chk.doomed_ever:
+                chk.viol("C13.owner_cancelled_by_foreign_kill_me", {},
+                         f"task {label} (p{rec['tid']}) owned {info['name']} when a file preamble called "
+                         f"task.unique({info['name']!r}, kill_me=True) - which must do nothing - and was cancelled")
         for label, pend in sorted(chk.pending_post.items()):
             if pend["expect"] is True and pend["step"][0] == "unique":
                 rec = chk.inst[label]
